@@ -232,6 +232,17 @@ impl StepWorld {
     let (trace, _ovf) = world::trace_stop();
     let mut o = Obs::default();
     o.writes = world::trace_writes(&trace);
+    if !world::hooks_on() {
+      // hooks-off build: no bus recorder.  What can be observed is what the bytes R1 predicted
+      // to be written hold now (device registers excepted: their read-back is not the written
+      // value); writes elsewhere are the instrumented build's business
+      for (a, v) in self.ov.writes.iter() {
+        // plain RAM only: video RAM, cartridge RAM, work RAM, OAM, high RAM
+        let ram = matches!(*a, 0x8000..=0xDFFF | 0xFE00..=0xFE9F | 0xFF80..=0xFFFE);
+        let now = if ram { peek_raw(&self.core.memory, *a) } else { *v };
+        o.writes.push((*a, now));
+      }
+    }
     let rg = &self.core.registers;
     o.af = rg.af;
     o.bc = rg.bc;
